@@ -125,6 +125,7 @@ def corr_cpow(run, zs, Ms):
         run.corr_break("corr:cpow", "driver failed")
         return []
     b = Batch(run, "complex-powers")
+    b2 = Batch(run, "complex-powers-generated-kernel")
     for (lab, z), o in zip(zs, out):
         t = parse_bits(o)
         zr = complex(tofloat(t[2]), tofloat(t[3]))
@@ -132,7 +133,8 @@ def corr_cpow(run, zs, Ms):
             zp = np.zeros((1, M + 1), dtype=complex)
             _complex_powers(np.array([z], dtype=complex), M, zp)
             b.add(f"cpow {M} {fbits(z.real)} {fbits(z.imag)} {fbits(h['imsqrt'](zr))}", arr_bits(zp), {"z": [z.real, z.imag], "M": M, "stratum": lab}, lab)
-    return b.flush()
+            b2.add(f"gencpow {M} {fbits(z.real)} {fbits(z.imag)} {fbits(h['imsqrt'](zr))}", arr_bits(zp), {"z": [z.real, z.imag], "M": M, "stratum": lab, "model": "generated"}, lab)
+    return b.flush() + b2.flush()
 
 
 def corr_d(run, configs, betas, poison=0.0):
